@@ -3867,8 +3867,14 @@ def _rg_contents(self, v, what, e):
     touched = _rg_nodes_touched(v)
     if any(x.t == DOCTYPE for x in touched):
         raise Undecided('doctype inside a range')
-    if what != 'cloneContents' and any(x.ro for x in touched):
-        raise Undecided('range contents with read-only nodes')
+    if what != 'cloneContents':
+        # DOM: NO_MODIFICATION_ALLOWED_ERR when read-only content is INSIDE the range.  DOMRangeImpl::checkReadOnly walks past the end
+        # point (siblings of first children), so read-only nodes near the range can raise it as well: not decided here
+        top = sc
+        while not _is_anc_or_self(top, ec):
+            top = top.parent
+        if any(x.ro for x in subtree(top, attrs=False)):
+            raise Undecided('range contents with read-only nodes nearby')
     e.cls = what + ('-collapsed' if (sc is ec and so == eo) else ('-same-container' if sc is ec else '-general'))
     frag, newpos = _range_extract(self, v, sc, so, ec, eo, what, e)
     if what != 'cloneContents':
